@@ -11,6 +11,7 @@ RULE = C11.RULE.replace("non-trivial = >= 2 choice paths and an inner node", "th
 TRUSTED = C11.TRUSTED + [
     "records are compared through a canonical serialisation (live outcomes in order, tombstones as a sorted multiset, 'owned' = source_roll does not raise)",
     "roll.r / source-roll order / derived values / accounting of live source outcomes are additionally checked structurally on the real record",
+    "dyce.r.walk is checked against a reachability closure recomputed from source_rolls / r / sources (visited exactly once, parents = referring objects); it is not part of the Lean model, which has no object identity",
 ]
 ASSUMPTIONS = C11.ASSUMPTIONS
 EXPLANATION = "theorems C12_all_reachable_owned (every tree, every path), C12_values_are_live_outcomes, C12_pinned_counterexample; the record model rollW is tied to /repo path by path"
@@ -40,6 +41,8 @@ def _structure_flags(r, roll, tree):
             exp = [(r.sources[0], tree[2]), (r.sources[1], tree[3])]
         elif t == "un":
             exp = [(r.sources[0], tree[2])]
+        elif t == "unb":
+            exp = [(r.sources[0], tree[4])]
         else:
             subs = tree[1] if t == "pool" else tree[3] if t == "filt" else tree[2]
             exp = list(zip(r.sources, subs))
@@ -75,6 +78,56 @@ def _structure_flags(r, roll, tree):
     return sorted(set(flags))
 
 
+def _walk_flags(roll):
+    """dyce.r.walk (the traversal clients use to inspect records) visits every roll, roller and outcome
+    reachable from the record exactly once and reports exactly the referring objects as parents;
+    reachability is recomputed here from source_rolls / r / sources alone"""
+    from collections import defaultdict
+
+    from dyce.r import RollerWalkerVisitor, RollOutcomeWalkerVisitor, RollWalkerVisitor, walk
+
+    flags = []
+
+    def closure(roots, succ):
+        seen, parents, stack = {}, defaultdict(set), list(roots)
+        while stack:
+            x = stack.pop()
+            if id(x) in seen:
+                continue
+            seen[id(x)] = x
+            for y in succ(x):
+                parents[id(y)].add(id(x))
+                stack.append(y)
+        return seen, parents
+
+    rolls, roll_par = closure([roll], lambda x: x.source_rolls)
+    rollers, roller_par = closure([x.r for x in rolls.values()], lambda x: x.sources)
+    outs, out_par = closure([o for x in rolls.values() for o in x], lambda o: o.sources)
+
+    class V(RollWalkerVisitor, RollerWalkerVisitor, RollOutcomeWalkerVisitor):
+        def __init__(self):
+            self.seen = {"roll": [], "roller": [], "outcome": []}
+
+        def on_roll(self, roll, parents):
+            self.seen["roll"].append((id(roll), frozenset(id(p) for p in parents)))
+
+        def on_roller(self, r, parents):
+            self.seen["roller"].append((id(r), frozenset(id(p) for p in parents)))
+
+        def on_roll_outcome(self, roll_outcome, parents):
+            self.seen["outcome"].append((id(roll_outcome), frozenset(id(p) for p in parents)))
+
+    v = V()
+    walk(roll, v)
+    for kind, (exp, par) in (("roll", (rolls, roll_par)), ("roller", (rollers, roller_par)), ("outcome", (outs, out_par))):
+        got = v.seen[kind]
+        if sorted(i for i, _ in got) != sorted(exp):
+            flags.append("walk-%ss-visited %d != reachable %d" % (kind, len(got), len(exp)))
+        elif any(ps != frozenset(par[i]) for i, ps in got):
+            flags.append("walk-%s-parents-differ" % kind)
+    return flags
+
+
 def impl(case):
     r = RC.build(case["tree"])
     agg = Counter()
@@ -82,6 +135,7 @@ def impl(case):
     for roll, w, log in RC.explore(lambda: r.roll()):
         agg[RC.show_rec(roll)] += w
         flags.update(_structure_flags(r, roll, case["tree"]))
+        flags.update(_walk_flags(roll))
     out = RC.fmt_agg(agg)
     if flags:
         out += " FLAGS:" + ",".join(sorted(flags))
